@@ -123,7 +123,8 @@ PROPS['C10'] = {
                   ('support.TBE', {'match': [r'^callsite']}),
                   'support.NormalizeTransferDistancesByDepth',
                   '(*tree.Edge).HashCode', '(*tree.Tree).CompareTipIndexes',
-                  ('support.minTransferDistRecur', {'match': [r'^post', r'^callsite', r'^inv']})],
+                  ('support.minTransferDistRecur', {'match': [r'^post', r'^callsite', r'^inv']}),
+                  ('support.MinTransferDist', {'match': [r'^callsite']}), ('support.TBE$2', {'match': [r'^callsite']})],
     'trusted_base': TB_COMMON,
     'assumptions': A_COMMON,
     'not_decided': ['transfer distance = minimum Hamming distance (minTransferDistRecur: monotonicity of the recorded minimum and the early-stop discipline are proved; the ones-count recurrence and its run-time safety are not)', 'TBE >= FBP and range lemmas', 'order independence of floating-point sums (A-FP)'],
